@@ -245,18 +245,18 @@ Qed.
 (* full statement:
      forall w nullable keys rs, length nullable = w -> length rs <= w -> same_width w keys -> keys_sorted keys ->
        match build_range w rs with
-       | Some r => iter_range nullable keys r = filter (sat rs) keys
+       | Some r => iter_range nullable encs keys r = filter (sat rs) keys
        | None => filter (sat rs) keys = [] end.
    Proved here for the ranges that IterRange scans with the start/stop search functions (KeyRangeLookup declines);
    the key-range path [Tup, IncrementTuple(Tup)) is ranges_sound_complete below. *)
 Theorem ranges_sound_complete_tree :
-  forall w nullable keys rs, (length rs <= w)%nat -> same_width w keys -> keys_sorted keys ->
+  forall w nullable encs keys rs, (length rs <= w)%nat -> same_width w keys -> keys_sorted keys ->
     match build_range w rs with
-    | Some r => key_range_lookup nullable r = None -> iter_range nullable keys r = filter (sat rs) keys
+    | Some r => key_range_lookup nullable encs r = None -> iter_range nullable encs keys r = filter (sat rs) keys
     | None => filter (sat rs) keys = []
     end.
 Proof.
-  intros w nullable keys rs Hl Hw Hs. unfold build_range. destruct (pruned rs) eqn:Hp.
+  intros w nullable encs keys rs Hl Hw Hs. unfold build_range. destruct (pruned rs) eqn:Hp.
   - apply filter_none. intros t Ht. unfold same_width in Hw. rewrite Forall_forall in Hw.
     apply pruned_unsat; [exact Hp | rewrite (Hw t Ht); exact Hl].
   - intros Hk. unfold iter_range. rewrite Hk. cbn [r_fields r_contig r_skip negb orb].
@@ -324,13 +324,13 @@ Qed.
 Lemma kr_char :
   forall fs m, eq_prefix_len fs = Some (S m) -> Forall wf_field fs ->
     forallb nilb (skipn (S m) fs) = true ->
-    forall t e1 e2 v, all_none e1 -> all_none e2 -> (S m <= length t)%nat ->
-      nth m (map hival fs) None = Some v ->
-      cmp_key (map hival fs ++ e1) (firstn m (map hival fs) ++ Some (incr32 v) :: e2) = Lt ->
-      key_leb (map hival fs ++ e1) t && negb (key_leb (firstn m (map hival fs) ++ Some (incr32 v) :: e2) t)
+    forall t e1 e2 v iv, all_none e1 -> all_none e2 -> (S m <= length t)%nat ->
+      nth m (map hival fs) None = Some v -> (v < iv -> iv = v + 1) ->
+      cmp_key (map hival fs ++ e1) (firstn m (map hival fs) ++ Some iv :: e2) = Lt ->
+      key_leb (map hival fs ++ e1) t && negb (key_leb (firstn m (map hival fs) ++ Some iv :: e2) t)
       = matches (firstn (S m) fs) t.
 Proof.
-  induction fs as [|f fs IH]; intros m Hp Hwf Hnil t e1 e2 v He1 He2 Hlen Hnth Hlt; [discriminate|].
+  induction fs as [|f fs IH]; intros m Hp Hwf Hnil t e1 e2 v iv He1 He2 Hlen Hnth Hiv Hlt; [discriminate|].
   cbn [eq_prefix_len] in Hp. inversion Hwf as [|f' fs' Hf Hfs]; subst.
   destruct (b_val (f_lo f)) as [k|] eqn:Hlo; [|destruct (is_none (b_val (f_hi f))); discriminate].
   destruct (f_eq f) eqn:He; [|discriminate].
@@ -352,8 +352,8 @@ Proof.
     pose proof (none_le _ t Hrest) as N1. pose proof (none_le _ t He2) as N2.
     pose proof (none_none _ _ Hrest He2) as N3. rewrite N3 in Hlt.
     destruct x as [xv|]; cbn [cmp_cell cmp_is_eq] in *.
-    + destruct (Z.compare_spec k (incr32 k)); try discriminate.
-      assert (Hi : incr32 k = k + 1) by (unfold incr32, max32, min32 in *; zb).
+    + destruct (Z.compare_spec k iv); try discriminate.
+      assert (Hi : iv = k + 1) by (apply Hiv; assumption).
       rewrite Hi in *. destruct (Z.compare_spec k xv); destruct (Z.compare_spec (k + 1) xv); destruct (Z.compare_spec xv k);
         try lia; try reflexivity;
         repeat match goal with |- context [match cmp_key ?a ?b with _ => _ end] => destruct (cmp_key a b) end; try congruence; reflexivity.
@@ -362,7 +362,7 @@ Proof.
     cbn [nth firstn app skipn] in *. rewrite Hv in *.
     cbn [matches]. unfold field_match. rewrite He, Hlo.
     unfold key_leb in *. cbn [cmp_key] in *. rewrite cmp_cell_refl in Hlt.
-    specialize (IH m eq_refl Hfs Hnil t e1 e2 v He1 He2 ltac:(cbn [length] in Hlen; lia) Hnth Hlt).
+    specialize (IH m eq_refl Hfs Hnil t e1 e2 v iv He1 He2 ltac:(cbn [length] in Hlen; lia) Hnth Hiv Hlt).
     destruct x as [xv|]; cbn [cmp_cell cmp_is_eq] in *.
     + destruct (Z.compare_spec k xv); destruct (Z.compare_spec xv k); try lia; cbn [andb negb]; try reflexivity.
       exact IH.
@@ -395,35 +395,36 @@ Proof.
   cbn [skipn]. cbn [forallb] in H. apply andb_prop in H. destruct H as [_ H]. apply IH. exact H.
 Qed.
 
-Lemma krl_inv : forall nullable r stop, key_range_lookup nullable r = Some stop ->
+Lemma krl_inv : forall nullable encs r stop, key_range_lookup nullable encs r = Some stop ->
   exists n v, eq_prefix_len (r_fields r) = Some (S n) /\ forallb nilb (skipn (S n) (r_fields r)) = true
     /\ nth n (r_tup r) None = Some v
-    /\ stop = pad (length (r_tup r)) (firstn n (r_tup r) ++ [Some (incr32 v)])
+    /\ stop = pad (length (r_tup r)) (firstn n (r_tup r) ++ [Some (incr_w (nth n encs (min32, max32)) v)])
     /\ cmp_key (r_tup r) stop = Lt.
 Proof.
-  intros nullable r stop H. unfold key_range_lookup in H.
+  intros nullable encs r stop H. unfold key_range_lookup in H.
   destruct (eq_prefix_len (r_fields r)) as [[|n]|]; try discriminate.
   destruct (negb (forallb (fun b => b) (skipn (S n) nullable))); [discriminate|].
   change (fun f => is_none (b_val (f_lo f)) && is_none (b_val (f_hi f))) with nilb in H.
   destruct (forallb nilb (skipn (S n) (r_fields r))) eqn:Hnil; [|discriminate]. cbn [negb] in H.
   destruct (nth n (r_tup r) None) as [v|] eqn:Hnth; [|discriminate].
-  destruct (cmp_key (r_tup r) (pad (length (r_tup r)) (firstn n (r_tup r) ++ [Some (incr32 v)]))) eqn:Hc; try discriminate.
+  destruct (cmp_key (r_tup r) (pad (length (r_tup r)) (firstn n (r_tup r) ++ [Some (incr_w (nth n encs (min32, max32)) v)]))) eqn:Hc; try discriminate.
   injection H as <-. exists n, v. repeat split; try assumption; reflexivity.
 Qed.
 
 Theorem ranges_sound_complete :
-  forall w nullable keys rs, (length rs <= w)%nat -> same_width w keys -> keys_sorted keys ->
+  forall w nullable encs keys rs, (length rs <= w)%nat -> same_width w keys -> keys_sorted keys ->
+    Forall (fun e : Z * Z => fst e <= snd e) encs ->
     match build_range w rs with
-    | Some r => iter_range nullable keys r = filter (sat rs) keys
+    | Some r => iter_range nullable encs keys r = filter (sat rs) keys
     | None => filter (sat rs) keys = []
     end.
 Proof.
-  intros w nullable keys rs Hl Hw Hs.
-  pose proof (ranges_sound_complete_tree w nullable keys rs Hl Hw Hs) as Htree.
+  intros w nullable encs keys rs Hl Hw Hs Henc.
+  pose proof (ranges_sound_complete_tree w nullable encs keys rs Hl Hw Hs) as Htree.
   unfold build_range in *. destruct (pruned rs) eqn:Hp; [exact Htree|].
   set (fs := map mk_field rs) in *.
   set (r := {| r_fields := fs; r_tup := pad w (map (fun f => b_val (f_hi f)) fs); r_contig := contig_aux false fs; r_skip := true |}) in *.
-  destruct (key_range_lookup nullable r) as [stop|] eqn:Hk; [|apply Htree; reflexivity].
+  destruct (key_range_lookup nullable encs r) as [stop|] eqn:Hk; [|apply Htree; reflexivity].
   clear Htree.
   assert (Hwf : Forall wf_field fs).
   { rewrite Forall_forall. intros f Hf. apply in_map_iff in Hf. destruct Hf as [c [Hc _]]. subst f. apply mk_field_wf. }
@@ -431,7 +432,7 @@ Proof.
   change (map (fun f => b_val (f_hi f)) fs) with (map hival fs) in *.
   set (hv := map hival fs) in *.
   assert (Hlh : length hv = length fs) by apply map_length.
-  destruct (krl_inv _ _ _ Hk) as [n [v [Hpre [Hnil [Hnth [Hstop Hcmp]]]]]].
+  destruct (krl_inv _ _ _ _ Hk) as [n [v [Hpre [Hnil [Hnth [Hstop Hcmp]]]]]].
   cbn [r_fields r_tup r] in Hpre, Hnil, Hnth, Hstop, Hcmp.
   pose proof (eq_prefix_len_le _ _ Hpre) as Hn.
   assert (Hpadlen : length (pad w hv) = w) by (unfold pad; rewrite app_length, repeat_length; lia).
@@ -439,28 +440,33 @@ Proof.
   { unfold pad. rewrite firstn_app. replace (n - length hv)%nat with O by lia. cbn [firstn]. apply app_nil_r. }
   assert (Hnth' : nth n hv None = Some v) by (unfold pad in Hnth; rewrite app_nth1 in Hnth; [exact Hnth | lia]).
   rewrite Hpadlen, Hfn in Hstop.
-  assert (Hstop' : stop = firstn n hv ++ Some (incr32 v) :: repeat None (w - S n)).
+  assert (Hstop' : stop = firstn n hv ++ Some (incr_w (nth n encs (min32, max32)) v) :: repeat None (w - S n)).
   { rewrite Hstop. unfold pad. rewrite <- app_assoc. cbn [app]. f_equal. f_equal. f_equal.
     rewrite app_length, firstn_length. cbn [length]. lia. }
   clear Hstop. subst stop.
-  assert (Hstoplen : length (firstn n hv ++ Some (incr32 v) :: repeat None (w - S n)) = w).
+  assert (Hstoplen : length (firstn n hv ++ Some (incr_w (nth n encs (min32, max32)) v) :: repeat None (w - S n)) = w).
   { rewrite app_length, firstn_length. cbn [length]. rewrite repeat_length. lia. }
   (* the scan *)
   unfold iter_range. rewrite Hk. cbn [r_fields r_tup r r_contig r_skip negb orb].
   unfold scan_keyrange.
   assert (Hscan : slice (first_idx (fun t => key_leb (pad w hv) t) keys)
-                        (first_idx (fun t => key_leb (firstn n hv ++ Some (incr32 v) :: repeat None (w - S n)) t) keys) keys
+                        (first_idx (fun t => key_leb (firstn n hv ++ Some (incr_w (nth n encs (min32, max32)) v) :: repeat None (w - S n)) t) keys) keys
                   = filter (matches (firstn (S n) fs)) keys).
   { transitivity (filter (fun t => key_leb (pad w hv) t
-                                   && negb (key_leb (firstn n hv ++ Some (incr32 v) :: repeat None (w - S n)) t)) keys).
+                                   && negb (key_leb (firstn n hv ++ Some (incr_w (nth n encs (min32, max32)) v) :: repeat None (w - S n)) t)) keys).
     - apply (slice_filter (fun a b : key => length a = w /\ length b = w /\ key_le a b)).
       + exact (sorted_restrict w keys Hw Hs).
       + intros a b [Hla [Hlb Hle]] H. apply (key_leb_trans (pad w hv) a b); try assumption; congruence.
       + intros a b [Hla [Hlb Hle]] H.
-        apply (key_leb_trans (firstn n hv ++ Some (incr32 v) :: repeat None (w - S n)) a b); try assumption; congruence.
+        apply (key_leb_trans (firstn n hv ++ Some (incr_w (nth n encs (min32, max32)) v) :: repeat None (w - S n)) a b); try assumption; congruence.
     - apply filter_ext_in. intros t Ht. unfold same_width in Hw. rewrite Forall_forall in Hw. specialize (Hw t Ht).
       unfold pad. unfold pad in Hcmp.
-      apply (kr_char fs n Hpre Hwf Hnil t); try assumption; try apply all_none_repeat; lia. }
+      apply (kr_char fs n Hpre Hwf Hnil t _ _ v (incr_w (nth n encs (min32, max32)) v)); try assumption; try apply all_none_repeat; try lia.
+      intros Hlt. assert (He : fst (nth n encs (min32, max32)) <= snd (nth n encs (min32, max32))).
+      { destruct (nth_in_or_default n encs (min32, max32)) as [Hin|Hd].
+        - rewrite Forall_forall in Henc. apply Henc. exact Hin.
+        - rewrite Hd. cbn. unfold min32, max32. lia. }
+      revert Hlt He. unfold incr_w. generalize (nth n encs (min32, max32)). intros [mn mx]. cbn [fst snd]. intros. zb. }
   rewrite Hscan.
   destruct (contig_aux false fs) eqn:Hc; cbn [negb].
   - assert (Hsk : skipn (S n) fs = []).
@@ -721,14 +727,14 @@ Qed.
 
 (* ---- the hypotheses are satisfiable and the interesting paths are taken ---- *)
 Example range_keyrange_path :
-  exists r, build_range 2 [(Below 2, Above 2)] = Some r /\ key_range_lookup [true; true] r <> None /\
-    iter_range [true; true] [[None; Some 2]; [Some 2; Some 3]; [Some 2; Some 4]; [Some 5; Some 1]] r
+  exists r, build_range 2 [(Below 2, Above 2)] = Some r /\ key_range_lookup [true; true] [] r <> None /\
+    iter_range [true; true] [] [[None; Some 2]; [Some 2; Some 3]; [Some 2; Some 4]; [Some 5; Some 1]] r
     = [[Some 2; Some 3]; [Some 2; Some 4]].
 Proof. eexists. split; [reflexivity|]. split; vm_compute; [discriminate | reflexivity]. Qed.
 
 Example range_noncontiguous_filtered :
   exists r, build_range 3 [(Above 1, AboveAll); (BelowNull, AboveNull)] = Some r /\ r_contig r = false /\
-    iter_range [true; true; true] [[Some 1; None; Some 1]; [Some 2; None; Some 2]; [Some 2; Some 0; Some 3]; [Some 3; None; Some 4]] r
+    iter_range [true; true; true] [] [[Some 1; None; Some 1]; [Some 2; None; Some 2]; [Some 2; Some 0; Some 3]; [Some 3; None; Some 4]] r
     = [[Some 2; None; Some 2]; [Some 3; None; Some 4]].
 Proof. eexists. split; [reflexivity|]. split; vm_compute; reflexivity. Qed.
 
